@@ -120,7 +120,7 @@ fn run_seed_cases(cx: &mut Ctx, seeds: &[Seed], idx: &mut u64) -> bool {
             }
         }
         let total = all.len();
-        let take = if thorough { total } else { total.min(if seed.bytes.len() > 20_000 { 400 } else { 2000 }) };
+        let take = if thorough { total } else { total.min(if seed.bytes.len() > 20_000 { 800 } else { 4000 }) };
         let mut rng = Rng::derive(cx.args.seed, 0x51, si as u64);
         if take < total {
             rng.shuffle(&mut all);
@@ -204,7 +204,7 @@ fn run_seed_cases(cx: &mut Ctx, seeds: &[Seed], idx: &mut u64) -> bool {
             }
         }
         // ---- pairs and havoc
-        let np = if thorough { 8000 } else { 1000 };
+        let np = if thorough { 8000 } else { 3000 };
         for k in 0..np {
             *idx += 1;
             if !cx.args.mine(*idx) {
@@ -225,7 +225,7 @@ fn run_seed_cases(cx: &mut Ctx, seeds: &[Seed], idx: &mut u64) -> bool {
                 return false;
             }
         }
-        let nh = if thorough { 16000 } else { 2000 };
+        let nh = if thorough { 16000 } else { 6000 };
         for k in 0..nh {
             *idx += 1;
             if !cx.args.mine(*idx) {
@@ -338,7 +338,7 @@ fn run_amplifiers(cx: &mut Ctx, idx: &mut u64) -> bool {
 /// with one byte-level havoc variant each. This widens the *shapes* the fixed seed corpus has.
 fn run_generated(cx: &mut Ctx, idx: &mut u64) -> bool {
     use crate::model::*;
-    let n = cx.args.scale(16_000, 200_000);
+    let n = cx.args.scale(40_000, 200_000);
     for i in 0..n {
         *idx += 1;
         if !cx.args.mine(*idx) {
